@@ -7,7 +7,8 @@ import re
 from . import names as N
 
 KINDS = ("blank", "comment", "indent", "spacing", "crlf", "wrap", "comma", "semicolon", "end")
-_COMMENTS = ("# c", "#", "# Decay X ; End", "#; Enddecay", "#\tCDecay q  # x")
+_COMMENTS = ("# c", "#", "# Decay X ; End", "#; Enddecay", "#\tCDecay q  # x", "# ff\x0cAlias Xff Yff", "# ls\u2028Define qls 1.0",
+             "# nel\x85 vt\x0b fs\x1c Decay Zq", "# \u03c0+ \u2192 \u03bc+ \u03bd")
 _WS = (" ", "  ", "\t", " \t", "    ")
 _NUM = re.compile(r"[+-]?(\d|\.\d)")
 
